@@ -164,11 +164,12 @@ class Fault:
       INTERRUPT  the victim runs inside `async with until(flag)`, the flag is set at (c, p)
       CLOSE      the victim's task lives in a scope whose body raises at (c, p): the task is
                  closed synchronously (GeneratorExit)
+      CANCEL_CLOSE  as CLOSE, with task.cancel() issued in the same turn just before
     `first` places the attacker before / after the victim in the run queue, so that together
     with p every activation boundary of the victim inside a time step is covered.
     """
-    NONE, CANCEL, INTERRUPT, CLOSE = range(4)
-    NAMES = ['none', 'cancel', 'interrupt', 'close']
+    NONE, CANCEL, INTERRUPT, CLOSE, CANCEL_CLOSE = range(5)
+    NAMES = ['none', 'cancel', 'interrupt', 'close', 'cancel+close']
 
     def __init__(self, E_, name, kinds, lo=0, hi=30, pmax=2, real=False, placements=True):
         self.name = name
@@ -192,7 +193,7 @@ class Fault:
         if kind == Fault.NONE:
             self.task = scope.do(make_victim())
             return self.task
-        if kind == Fault.CLOSE:
+        if kind in (Fault.CLOSE, Fault.CANCEL_CLOSE):
             scope.do(self._enclosing(make_victim))
             return None
         if self.first:
@@ -228,6 +229,9 @@ class Fault:
                 self.task = enc.do(make_victim())
                 await at_cp(self.c, self.p)
                 self._note()
+                if self.kind == Fault.CANCEL_CLOSE:
+                    # cancelled and, in the same turn, closed with its abandoned scope
+                    self.task.cancel()
                 raise _CloseNow()
         except _CloseNow:
             pass
